@@ -278,7 +278,7 @@ def rule_row_mapping(ctx: Ctx) -> None:
         # local name -> row keys (element-wise for tuple assignments)
         loc: Dict[str, List[str]] = {}
         reassigned: Dict[str, List[ast.AST]] = {}
-        for s in sorted(A.stores(fn), key=lambda s: s.stmt.lineno):
+        for s in sorted(A.stores(fn), key=lambda s: A.seq(s.stmt)):
             n = s.node
             if isinstance(n, ast.Assign) and len(n.targets) == 1:
                 t = n.targets[0]
